@@ -30,14 +30,12 @@ Definition stmt_cons_b (mt : meta) (funs : list fundecl) (c : ctx) : stmt -> boo
 (* ---------------------------------------------------------------------------------------------- *)
 Lemma cst_true_mark : forall y c x, cst_true (mark y c) x = cst_true c x && negb (Nat.eqb x y).
 Proof.
-  intros y c x. induction c as [|[n b] c IH]; cbn; auto.
-  rewrite IH. destruct (Nat.eqb_spec n y) as [->|Ny]; cbn.
-  - destruct (Nat.eqb_spec y x) as [->|Nx]; cbn.
-    + rewrite Nat.eqb_refl. cbn. rewrite andb_false_r. destruct (cst_true c x); reflexivity.
-    + reflexivity.
-  - destruct (Nat.eqb_spec n x) as [->|Nx]; cbn; [|reflexivity].
-    destruct (Nat.eqb_spec x y) as [->|]; [congruence|]. cbn. destruct b; cbn; [reflexivity|].
-    destruct (cst_true c x); reflexivity.
+  intros y c x. unfold cst_true, mark. induction c as [|[n b] c IH]; [reflexivity|].
+  cbn [map existsb]. rewrite IH. cbn [fst snd].
+  set (r := existsb (fun nb : name * bool => Nat.eqb (fst nb) x && snd nb) c).
+  destruct (Nat.eqb_spec n y) as [E1|E1]; cbn [fst snd];
+    destruct (Nat.eqb_spec n x) as [E2|E2]; destruct (Nat.eqb_spec x y) as [E3|E3];
+    destruct b; destruct r; cbn; try reflexivity; try congruence; try apply andb_false_r.
 Qed.
 
 Definition le (c' c : cstate) : Prop := forall x, cst_true c' x = true -> cst_true c x = true.
@@ -49,11 +47,16 @@ Proof. intros y c x H. rewrite cst_true_mark in H. apply andb_true_iff in H. tau
 Lemma mark_false : forall y c, cst_true (mark y c) y = false.
 Proof. intros. rewrite cst_true_mark, Nat.eqb_refl. cbn. apply andb_false_r. Qed.
 
+Lemma mark_all_cons : forall y ys c, mark_all (y :: ys) c = mark y (mark_all ys c).
+Proof. reflexivity. Qed.
 Lemma le_mark_all : forall ys c, le (mark_all ys c) c.
-Proof. induction ys as [|y ys IH]; intros c; cbn; [apply le_refl|]. eapply le_trans; [apply le_mark|apply IH]. Qed.
+Proof.
+  induction ys as [|y ys IH]; intros c; [apply le_refl|]. rewrite mark_all_cons.
+  eapply le_trans; [apply le_mark|apply IH].
+Qed.
 Lemma mark_all_false : forall ys c y, In y ys -> cst_true (mark_all ys c) y = false.
 Proof.
-  induction ys as [|z ys IH]; cbn; intros c y [->|Hin].
+  induction ys as [|z ys IH]; intros c y Hin; [contradiction|]. rewrite mark_all_cons. destruct Hin as [->|Hin].
   - apply mark_false.
   - rewrite cst_true_mark. rewrite (IH c y Hin). reflexivity.
 Qed.
@@ -72,7 +75,7 @@ Proof.
   - eapply IH; eauto.
   - destruct Hin as [E|Hin]; [|eapply IH; eauto]. inv E. rewrite Hi.
     destruct (cst_true (mark_args isc (S i) args (mark_all (arg_refs (ARef y)) c)) y) eqn:E; auto.
-    apply le_mark_args in E. cbn in E. rewrite mark_false in E. discriminate E.
+    apply le_mark_args in E. change (arg_refs (ARef y)) with [y] in E. rewrite mark_all_false in E by (cbn; auto). discriminate E.
 Qed.
 
 (* an induction principle that reaches into the nested statement lists *)
@@ -153,13 +156,13 @@ Section Analysis.
     all_stmt P (SIf c th el) = true.
   Proof.
     intros P c th el H0 H1 H2. cbn. rewrite H0. cbn. apply andb_true_iff. split.
-    - clear H2. induction th as [|s th IH]; cbn in *; auto. apply andb_true_iff in H1. destruct H1 as [A B0]. rewrite A. cbn. auto.
-    - clear H1. induction el as [|s el IH]; cbn in *; auto. apply andb_true_iff in H2. destruct H2 as [A B0]. rewrite A. cbn. auto.
+    - clear H2. induction th as [|s th IH]; cbn in *; auto; apply andb_true_iff in H1; destruct H1 as [A B0]; rewrite A; cbn; auto.
+    - clear H1. induction el as [|s el IH]; cbn in *; auto; apply andb_true_iff in H2; destruct H2 as [A B0]; rewrite A; cbn; auto.
   Qed.
   Lemma all_stmt_for_intro : forall P x e b, P (SFor x e b) = true -> all_stmts P b = true -> all_stmt P (SFor x e b) = true.
   Proof.
     intros P x e b H0 H1. cbn. rewrite H0. cbn.
-    induction b as [|s b IH]; cbn in *; auto. apply andb_true_iff in H1. destruct H1 as [A B0]. rewrite A. cbn. auto.
+    induction b as [|s b IH]; cbn in *; auto; apply andb_true_iff in H1; destruct H1 as [A B0]; rewrite A; cbn; auto.
   Qed.
 
   Lemma chk_an_stmt : forall cf s c, le cf (an_stmt done j s c) -> all_stmt (chk cf oc) s = true.
@@ -167,11 +170,11 @@ Section Analysis.
     intros cf. induction s using stmt_ind2; intros c0 Hle.
     - reflexivity.
     - cbn. rewrite andb_true_r. apply negb_true_iff. destruct (cst_true cf x) eqn:E; auto.
-      apply Hle in E. cbn in E. rewrite mark_false in E. discriminate E.
+      apply Hle in E. cbn [an_stmt] in E. rewrite mark_false in E. discriminate E.
     - cbn. rewrite andb_true_r. apply negb_true_iff. destruct (cst_true cf x) eqn:E; auto.
-      apply Hle in E. cbn in E. rewrite mark_false in E. discriminate E.
+      apply Hle in E. cbn [an_stmt] in E. rewrite mark_false in E. discriminate E.
     - reflexivity.
-    - cbn in Hle. cbn. rewrite andb_true_r. apply andb_true_iff. split.
+    - cbn [an_stmt] in Hle. cbn. rewrite andb_true_r. apply andb_true_iff. split.
       + destruct d as [d|]; auto. apply negb_true_iff. destruct (cst_true cf d) eqn:E; auto.
         apply Hle in E. apply le_mark_args in E. rewrite mark_false in E. discriminate E.
       + apply forallb_forall. intros [i y] Hin. cbn.
@@ -197,7 +200,7 @@ End Analysis.
 Lemma mark_fst : forall y c, map fst (mark y c) = map fst c.
 Proof. intros y c. unfold mark. rewrite map_map. apply map_ext. intros [n b]. cbn. destruct (Nat.eqb n y); reflexivity. Qed.
 Lemma mark_all_fst : forall ys c, map fst (mark_all ys c) = map fst c.
-Proof. induction ys as [|y ys IH]; intros c; cbn; auto. rewrite mark_fst. auto. Qed.
+Proof. induction ys as [|y ys IH]; intros c; [reflexivity|]. rewrite mark_all_cons, mark_fst. auto. Qed.
 Lemma mark_args_fst : forall isc args i c, map fst (mark_args isc i args c) = map fst c.
 Proof.
   intros isc args. induction args as [|a args IH]; intros i c; cbn; auto. rewrite IH. destruct (isc i); auto. apply mark_all_fst.
@@ -209,16 +212,16 @@ Proof.
   - rewrite an_if. unfold go.
     assert (G : forall l, Forall (fun s => forall c, map fst (an_stmt done j s c) = map fst c) l ->
                 forall c, map fst (fold_left (fun c s => an_stmt done j s c) l c) = map fst c).
-    { induction l as [|s l IHl]; intros HF c; cbn; auto. inv HF. rewrite IHl; auto. }
+    { induction l as [|s l IHl]; intros HF c'; cbn; auto. inv HF. rewrite IHl; auto. }
     rewrite G; auto.
   - rewrite an_for. unfold go.
     assert (G : forall l, Forall (fun s => forall c, map fst (an_stmt done j s c) = map fst c) l ->
                 forall c, map fst (fold_left (fun c s => an_stmt done j s c) l c) = map fst c).
-    { induction l as [|s l IHl]; intros HF c; cbn; auto. inv HF. rewrite IHl; auto. }
+    { induction l as [|s l IHl]; intros HF c'; cbn; auto. inv HF. rewrite IHl; auto. }
     apply G; auto.
 Qed.
 Lemma go_fst : forall done j l c, map fst (go done j l c) = map fst c.
-Proof. intros done j. induction l as [|s l IH]; intros c; cbn; auto. rewrite IH. apply an_stmt_fst. Qed.
+Proof. intros done j. unfold go. induction l as [|s l IH]; intros c; cbn [fold_left]; auto. rewrite IH. apply an_stmt_fst. Qed.
 
 Lemma combine_fst_snd : forall (c : cstate), combine (map fst c) (map snd c) = c.
 Proof. induction c as [|[n b] c IH]; cbn; auto. f_equal. auto. Qed.
@@ -271,7 +274,8 @@ Proof.
   assert (H : forall s, all_stmt (chk [] (is_const mt)) s = true).
   { induction s using stmt_ind2; try reflexivity.
     - cbn. destruct d; cbn; rewrite andb_true_r; apply forallb_forall; intros [i y] _; cbn; apply orb_true_r.
-    - apply all_stmt_if_intro; [reflexivity| |]; apply forallb_forall; intros s Hs; eapply Forall_forall; eauto.
-    - apply all_stmt_for_intro; [reflexivity|]. apply forallb_forall; intros s Hs; eapply Forall_forall; eauto. }
+    - rewrite Forall_forall in H, H0.
+      apply all_stmt_if_intro; [reflexivity| |]; apply forallb_forall; intros s Hs; auto.
+    - rewrite Forall_forall in H. apply all_stmt_for_intro; [reflexivity|]. apply forallb_forall; intros s Hs; auto. }
   intros ss. apply forallb_forall. intros s _. apply H.
 Qed.
